@@ -47,12 +47,15 @@ def gen(rng):
         vol = rng.choice(['/'] + L['vols'])
         wd = L['work'][vol]
         aux = home + '/aux' if vol == '/' else vol + '/aux'
-        p = wd + '/' + rng.choice(['foo', 'bar baz', 'ü']) + str(i)
+        # (long names: '<name>.trashinfo' exceeds NAME_MAX, so the kernel itself answers ENAMETOOLONG until the name is cut enough)
+        p = wd + '/' + rng.choice(['foo', 'foo', 'bar baz', 'bar baz', 'ü', 'ü', 'é' * 125, '日' * 84, 'x' * 250, 'é' * 5 + 'r' * 240]) + str(i)
         G.make_entry(rng, p, rng.choice(['file', 'dir', 'dir', 'deepdir', 'link_file', 'link_dangling', 'empty']), steps, aux)
         args.append(p)
     if rng.random() < 0.4:
         for a in args:
             nm = posixpath.basename(a)
+            if len(nm.encode('utf-8')) > 240:
+                continue
             G.add_trashed(steps, G.home_trash_of(env), nm, TG.pct(home + '/old/' + nm), '2020-01-01T00:00:00', 'file', tag='old')
     opts = []
     if rng.random() < 0.15:
